@@ -2,6 +2,7 @@
 collaborators, running the model (engine.eval / engine.facts)."""
 import asyncio
 import copy
+import json
 import itertools
 import multiprocessing as mp
 
@@ -501,6 +502,19 @@ def _warm_runs(c, kw, subj, act, res, ctx, CHECKERS):
         except Exception as e:  # noqa: BLE001
             out.append({"how": "on a Guard created with another configuration whose public attributes were then reassigned",
                         "decision": ["Raise", type(e).__name__]})
+
+        # (5) the policy OBJECT was seen by the library in another state and then edited in place into this policy
+        #     (identity-keyed memos of targets / actions / obligations / conditions / children must not show): morph.py
+        import zlib
+        import morph
+        crc = zlib.crc32(json.dumps(pol, sort_keys=True, default=str).encode("utf-8", "replace"))
+        modes = [morph.mode_for(crc)]
+        if crc % 2 == 0 and "obligations" not in modes and '"obligations"' in json.dumps(pol, default=str):
+            modes.append("obligations")
+
+        async def ask(gg):
+            return dec(await gg.evaluate_async(subj, act, res, ctx))
+        out.extend(await morph.morph_runs(mk, pol, ask, modes))
 
     asyncio.run(go())
     return out
